@@ -114,6 +114,11 @@ def _pred_views(sl, p, outcome=True, depth=0):
             return _pred_views(sl, rest[0], outcome, depth + 1)
         return out
     out.append((p, outcome))
+    nv = dir_norm(sl, (p, outcome))
+    if nv is not None:
+        # a directory test spelled through fs::metadata / a helper: the same decision as Path::is_dir(p)
+        note_alt(nv, (p, outcome))
+        out.append(nv)
     q = sl.inline_deep(p)
     if q != p:
         for x in _pred_views(sl, q, outcome, depth + 1):
@@ -446,6 +451,46 @@ def returned_into(prog, sl, g, ok, target, levels, fields=FIELDS):
     return None
 
 
+def is_helper_result(prog, v):
+    """v is (the success payload of) what a private workspace function returns"""
+    v = strip(v)
+    return v[0] == 'call' and v[1] in prog.fns and prog.fns[v[1]].kind != 'Closure' and prog.fns[v[1]].vis != 'pub'
+
+
+def target_fields(prog, sl, v, depth=0):
+    """`env.implicit_delta_mut(&scope)` -> `Some(&mut self.layer_paths_build)` for a literal scope: the field(s) of the
+    layer environment a delta reference obtained from a private helper stands for; None when some alternative is not a
+    field projection"""
+    for _ in range(6):
+        if not isinstance(v, tuple) or not v:
+            return None
+        v = strip(v)
+        if v[0] == 'field':
+            return {v[2]}
+        if v[0] == 'agg' and v[1] in ('std::option::Option', 'std::result::Result') and v[2] in ('Some', 'Ok') and len(v[3]) == 1:
+            v = v[3][0][1]
+            continue
+        if v[0] == 'phi' and depth < 4:
+            out = set()
+            for x in v[1]:
+                sx = strip(x)
+                if sx[0] == 'agg' and sx[1] in ('std::option::Option', 'std::result::Result') and sx[2] in ('None', 'Err'):
+                    continue        # no delta at all on that path: nothing is inserted
+                r = target_fields(prog, sl, x, depth + 1)
+                if r is None:
+                    return None
+                out |= r
+            return out or None
+        if v[0] == 'call' and v[1] in prog.fns:
+            n = normal(prog, sl, v)
+            if n == v:
+                return None
+            v = n
+            continue
+        return None
+    return None
+
+
 # ---- loop elements that become literal rows only at the call site ---------------------------------------------------
 def _replace(v, key, new):
     """v with every sub-value whose canonical form is `key` replaced by `new`"""
@@ -456,9 +501,56 @@ def _replace(v, key, new):
     return tuple(_replace(x, key, new) if isinstance(x, tuple) else x for x in v)
 
 
+def _is_empty_literal(coll):
+    """an array literal without elements, possibly behind iter() / into_iter() / copied() .."""
+    v = coll
+    for _ in range(8):
+        if not isinstance(v, tuple) or not v:
+            return False
+        v = strip(v)
+        if v[0] == 'array':
+            return not v[1]
+        if v[0] == 'call' and len(v[2]) == 1 and (v[1] in SAME or (iters._is_source(v[1]) and v[1].endswith(SAME_ELEMS))):
+            v = v[2][0]
+            continue
+        return False
+    return False
+
+
+def dead_guard(cd, subj):
+    """the decision `next(<empty array literal>)` is Some: never taken"""
+    if cd.kind != 'variant' or subj is None or not isinstance(cd.outcome, frozenset) or 'None' in cd.outcome or not cd.outcome:
+        return False
+    s = strip(subj)
+    return s[0] == 'call' and s[1] == IT + 'next' and len(s[2]) == 1 and _is_empty_literal(s[2][0])
+
+
+def variant_views(gl):
+    """the `match` decisions among guards (Cond, views, subject, ..): pseudo-views (subject, ('variant', outcome, enum)) that
+    can be carried through unrolled() like boolean views, so that they are evaluated on the row they run for"""
+    return [(g[2], ('variant', g[0].outcome, g[0].enum)) for g in gl
+            if g[0].kind == 'variant' and g[2] is not None and isinstance(g[0].outcome, frozenset)]
+
+
+def dead_row(prog, sl, pviews):
+    """a call in the `Scope::Build` arm of a `match scope` does not run for a row whose scope is the literal
+    Scope::Launch (lib/effects.feasible, on the row the decision was substituted with)"""
+    for subj, (_tag, outcome, enum) in pviews:
+        s = strip(subj)
+        if s[0] == 'call' and s[1] in prog.fns:
+            s = strip(normal(prog, sl, s))
+        while s[0] == 'agg' and s[2] in ('Ok', 'Some') and s[1] != enum and len(s[3]) == 1:
+            s = strip(s[3][0][1])
+        if s[0] == 'agg' and s[1] == enum and s[2] is not None and s[2] not in outcome:
+            return True
+    return False
+
+
 def _rows_of(sl, coll):
     """concrete elements of coll: [(element, guards, opaque)] or None if coll does not decompose into literal rows"""
     els = elements(sl, coll)
+    if not els and _is_empty_literal(coll):
+        return []       # a loop over `&[]` (a row of a nested table without entries of that kind) never runs its body
     if not els or any(fa is not None for _, fa, _, _ in els):
         return None
     return [(el, g, o) for el, _, g, o in els]
@@ -786,6 +878,9 @@ def _row_infeasible_edges(E, f, lp, m):
         taken = set()
         for row, _, _ in rows:
             sv = strip(subst(E.subst(subj, plain), {'__repl__': [(key, row)]}, sl))
+            if sv[0] != 'agg':
+                # `if let Some(delta) = env.implicit_delta_mut(&scope)`: what a private helper returns for this row
+                sv = strip(normal(E.prog, sl, sv))
             if sv[0] == 'agg' and sv[1] == enum and sv[2] is not None:
                 taken.add(sv[2])
             else:
@@ -817,7 +912,8 @@ def _no_layer_dir_edges(f, sl, root, comps):
         val, neg = sl.operand(f, t['o']), False
         while val[0] == 'un' and val[1] == 'Not':
             val, neg = val[2], not neg
-        if not (val[0] == 'call' and val[1] in (IS_DIR, 'std::path::Path::exists') and val[2] and comps(val[2][0], root) == ()):
+        tested = val[2][0] if val[0] == 'call' and val[1] in (IS_DIR, EXISTS) and val[2] else dir_test_of(sl, val)
+        if tested is None or comps(tested, root) != ():
             continue
         for v, tb in t['targets']:
             if (v == 0) != neg:
@@ -840,7 +936,16 @@ def sufficiency(E, call, mapping, targets, root=None, comps=None):
     if root is not None:
         skip |= _no_layer_dir_edges(f, sl, root, comps)
     for cd in conditions(f, bb, sl):
-        if cd.kind == 'bool' and any(isinstance(v, tuple) and v and v[0] == 'call' and v[1] in (IS_DIR, EXISTS) for v, _ in cd.views()):
+        views = cd.views() if cd.kind == 'bool' else ()
+        if cd.kind == 'bool' and _lossy(cd.value):
+            jg = joined_groups(E, cd)
+            if jg:
+                views = [v for grp in jg for v in grp]
+        not_dir = any(is_dir_decision(sl, v) for v, _ in views)
+        # `match fs::metadata(p) { Ok(m) => .., Err(_) => .. }`: the other arms are "not a directory", too
+        not_dir = not_dir or (cd.kind == 'variant' and cd.subject is not None and _meta_src(cd.subject) is not None
+                              and isinstance(cd.outcome, frozenset) and cd.outcome <= {'Ok', 'Some', 'Continue'})
+        if not_dir:
             for s in f.succs(cd.sw_bb):
                 if s != cd.target:
                     skip.add((cd.sw_bb, s))
@@ -963,3 +1068,457 @@ def layer_data_inits(prog, sl, reader):
                     ev, pv = subst(ev, m, sl), subst(pv, m, sl)
                 out.append((f, where, ev, pv, None))
     return out
+
+
+# =====================================================================================================================
+# "is a directory, symlinks followed": one decision, many spellings
+#   Path::is_dir(p)                                                  (std: fs::metadata(p).map(|m| m.is_dir()).unwrap_or(false))
+#   fs::metadata(p).map(|m| m.is_dir()).unwrap_or(false) / .unwrap_or_default()
+#   fs::metadata(p).is_ok_and(|m| m.is_dir()) / .map_or(false, |m| m.is_dir()) / .ok().is_some_and(..)
+#   `Ok(m) = fs::metadata(p)` .. `m.is_dir()` / `m.file_type().is_dir()`   (the test of the payload: it exists only when
+#                                                                       the metadata call succeeded)
+#   a private helper returning one of these
+# dir_test_of gives the tested path for all of them; fs::symlink_metadata / DirEntry::metadata / DirEntry::file_type do
+# not follow symlinks and are *not* spellings of this decision.
+# =====================================================================================================================
+META = ('std::fs::metadata', 'std::path::Path::metadata')
+META_IS_DIR = 'std::fs::Metadata::is_dir'
+FT_IS_DIR = 'std::fs::FileType::is_dir'
+FILE_TYPE = 'std::fs::Metadata::file_type'
+_TRANSPARENT = ('::ok', '::as_ref', '::as_mut', '::as_deref')
+
+
+def _comb(v):
+    """('R' | 'O', method) of a Result / Option combinator call, else (None, None)"""
+    n = v[1]
+    if n.startswith('std::result::Result::'):
+        return 'R', n.rsplit('::', 1)[1]
+    if n.startswith('std::option::Option::'):
+        return 'O', n.rsplit('::', 1)[1]
+    return None, None
+
+
+def _meta_src(v):
+    """the path p when v is (the success payload of / a borrowed or Option view of) `fs::metadata(p)`"""
+    for _ in range(6):
+        if not isinstance(v, tuple) or not v:
+            return None
+        v = strip(v)
+        if v[0] == 'agg' and v[1] in ('std::result::Result', 'std::option::Option') and v[2] in ('Ok', 'Some') and len(v[3]) == 1:
+            v = v[3][0][1]
+            continue
+        if v[0] != 'call':
+            return None
+        if v[1] in META and len(v[2]) == 1:
+            return v[2][0]
+        k, meth = _comb(v)
+        if k and len(v[2]) == 1 and ('::' + meth) in _TRANSPARENT:
+            v = v[2][0]
+            continue
+        return None
+    return None
+
+
+def _same(a, b):
+    return a is not None and b is not None and canon(strip(a)) == canon(strip(b))
+
+
+def _through(sl, src, clv, depth):
+    """`src.<combinator>(closure)` with src = fs::metadata(p) and the closure deciding is_dir of the payload -> p"""
+    p = _meta_src(src)
+    if p is None:
+        return None
+    b = sl.apply_closure(strip(clv), (('unwrap', src),))
+    if b is None:
+        return None
+    return p if _same(dir_test_of(sl, b, depth + 1), p) else None
+
+
+def _opt_dir(sl, r, depth):
+    """r: Result<bool, _> / Option<bool> that is Ok(true) / Some(true) exactly when p is a directory -> p"""
+    if depth > 6 or not isinstance(r, tuple) or not r:
+        return None
+    r = strip(r)
+    if r[0] != 'call':
+        return None
+    k, meth = _comb(r)
+    if k and meth == 'map' and len(r[2]) == 2:
+        return _through(sl, r[2][0], r[2][1], depth)
+    if k and len(r[2]) == 1 and ('::' + meth) in _TRANSPARENT:
+        return _opt_dir(sl, r[2][0], depth + 1)
+    if r[1] in sl.prog.fns:
+        iv = sl.inline_call(r)
+        if iv is not None and iv != r:
+            return _opt_dir(sl, iv, depth + 1)
+    return None
+
+
+def dir_test_of(sl, v, depth=0):
+    """the path p when the boolean value v is true exactly when p is a directory with symlinks followed — what
+    Path::is_dir(p) decides, however it is spelled; None for anything else"""
+    if depth > 6 or not isinstance(v, tuple) or not v:
+        return None
+    v = strip(v)
+    if v[0] != 'call':
+        return None
+    n, a = v[1], v[2]
+    if n == IS_DIR:
+        return a[0] if len(a) == 1 else None
+    if n == META_IS_DIR and len(a) == 1:
+        return _meta_src(a[0])
+    if n == FT_IS_DIR and len(a) == 1:
+        ft = strip(a[0])
+        if ft[0] == 'call' and ft[1] == FILE_TYPE and len(ft[2]) == 1:
+            return _meta_src(ft[2][0])
+        return None
+    k, meth = _comb(v)
+    if k:
+        if meth == 'unwrap_or' and len(a) == 2 and strip(a[1]) == ('const', False):
+            return _opt_dir(sl, a[0], depth + 1)
+        if meth == 'unwrap_or_default' and len(a) == 1:
+            return _opt_dir(sl, a[0], depth + 1)
+        if meth in ('is_ok_and', 'is_some_and') and len(a) == 2:
+            return _through(sl, a[0], a[1], depth)
+        if meth == 'map_or' and len(a) == 3 and strip(a[1]) == ('const', False):
+            return _through(sl, a[0], a[2], depth)
+        return None
+    if n in sl.prog.fns:
+        iv = sl.inline_call(v)
+        if iv is not None and iv != v:
+            return dir_test_of(sl, iv, depth + 1)
+    return None
+
+
+def dir_norm(sl, view):
+    """the view `Path::is_dir(p) == outcome` a differently spelled directory test stands for, or None"""
+    v, oc = view
+    if not isinstance(v, tuple) or not v or not isinstance(oc, bool):
+        return None
+    s = strip(v)
+    if s[0] == 'call' and s[1] == IS_DIR:
+        return None
+    p = dir_test_of(sl, v)
+    if p is None:
+        return None
+    return (('call', IS_DIR, (p,), None), oc)
+
+
+def dir_views(sl, views):
+    """views of one decision + its normal form `Path::is_dir(p)` when it is a directory test spelled differently"""
+    out = list(views)
+    for vw in views:
+        nv = dir_norm(sl, vw)
+        if nv is not None:
+            note_alt(nv, vw)
+            if nv not in out:
+                out.append(nv)
+    return out
+
+
+def is_dir_decision(sl, v):
+    """v is a test whose failing means "not a directory" / "does not exist": Path::is_dir, Path::exists or another
+    spelling of the directory test"""
+    if not isinstance(v, tuple) or not v:
+        return False
+    s = strip(v)
+    if s[0] == 'call' and s[1] in (IS_DIR, EXISTS):
+        return True
+    return dir_test_of(sl, v) is not None
+
+
+def mentions_dir_test(v, root, comps, own):
+    """v is a join of branches (phi) or a Result / Option combinator chain that could not be looked into, and some
+    sub-value of it is a symlink-following test / stat of <root>/own: the decision could not be *expressed*, but it is about
+    the row's own directory.  (A plain call on the metadata — `m.permissions().readonly()` — is expressed: another decision.)"""
+    if not isinstance(v, tuple) or not v:
+        return False
+    s = strip(v)
+    if not (_lossy(v) or (s[0] == 'call' and _comb(s)[0] is not None)):
+        return False
+    for x in _walk(v):
+        if x[0] == 'call' and x[1] in (IS_DIR,) + META and len(x[2]) == 1:
+            cs = comps(x[2][0], root)
+            if cs is not None and len(cs) == 1 and cs[0] == own:
+                return True
+    return False
+
+
+NO_FOLLOW = ('std::fs::symlink_metadata', 'std::path::Path::symlink_metadata', 'std::path::Path::is_symlink', 'std::fs::Metadata::is_symlink',
+             'std::fs::FileType::is_symlink', 'std::fs::DirEntry::metadata', 'std::fs::DirEntry::file_type', 'std::fs::read_link',
+             'std::path::Path::read_link')
+
+
+def mentions_no_follow(v):
+    """some sub-value of v looks at a path without following symlinks"""
+    return any(x[0] == 'call' and x[1] in NO_FOLLOW for x in _walk(v))
+
+
+# ---- loops: natural loops by dominance -----------------------------------------------------------------------------
+def natural_loops(fn, slicer):
+    """lib/effects.find_loops takes every predecessor of the header that the header can reach for a latch; for a loop
+    nested in another loop that includes the pre-header (it is reached again through the outer back edge), so the inner
+    loop's body becomes the whole outer loop and its exhaustion edge is lost.  Here a latch is a predecessor the header
+    *dominates* (a back edge); where no predecessor qualifies (the `next` call is not the loop head: `loop { a(); match
+    it.next() {..} }`) the lib's answer is kept."""
+    from .lib.effects import find_loops
+    loops = find_loops(fn, slicer)
+    preds = None
+    for lp in loops:
+        h = lp.header
+        back = [p for p in lp.latches if fn.dominates(h, p)]
+        if not back or len(back) == len(lp.latches):
+            continue
+        if preds is None:
+            preds = fn.preds()
+        body = {h}
+        work = list(back)
+        while work:
+            b = work.pop()
+            if b in body:
+                continue
+            body.add(b)
+            work.extend(preds[b])
+        # (every block of a natural loop is dominated by the header: the backward walk cannot leave through it)
+        if not all(fn.dominates(h, b) for b in body):
+            continue
+        lp.body, lp.latches = body, back
+        lp.exit_bb = [s for b in body for s in fn.succs(b) if s not in body]
+        lp.exhaust = None
+        tb = lp.next_call.target
+        if tb is not None and fn.blocks[tb]['t']['t'] == 'switch':
+            t = fn.blocks[tb]['t']
+            some_t = [b for v, b in t['targets'] if v == 1]
+            outs = [b for v, b in t['targets'] if v != 1] + [t['else']]
+            outs = [b for b in outs if b not in body and fn.blocks[b]['t']['t'] != 'unreachable']
+            if some_t and some_t[0] in body and len(set(outs)) == 1:
+                lp.exhaust = (tb, outs[0])
+    return loops
+
+
+def effects_with_natural_loops(prog, sl, vocab):
+    from .lib.effects import Effects
+
+    class _Effects(Effects):
+        def loops(self, fn):
+            if fn.path not in self._loops:
+                self._loops[fn.path] = natural_loops(fn, self.slicer)
+            return self._loops[fn.path]
+
+        def _expand_call1(self, fn, c, forall, mode, mapping, chain, stack, out):
+            # `let add = |delta, name, path| { .. }; add(&mut env.layer_paths_build, n, p)`: a local closure called
+            # directly is a private helper — its body runs once, with its parameters bound to the call's arguments
+            # (lib/effects records an opaque CALLBACK for it)
+            if not c.indirect and c.decl in FN_CALL and len(c.args) == 2:
+                clv = strip(self.subst(self.slicer.operand(fn, c.args[0]), mapping))
+                tup = strip(self.slicer.operand(fn, c.args[1]))
+                g = self.prog.fns.get(clv[1]) if clv[0] == 'closure' else None
+                if g is not None and g.kind == 'Closure' and tup[0] == 'tuple':
+                    self._expand_closure(fn, c, clv, list(tup[1]), forall, mode, mapping, chain, stack, out)
+                    return
+            Effects._expand_call1(self, fn, c, forall, mode, mapping, chain, stack, out)
+    return _Effects(prog, sl, vocab=vocab)
+
+
+FN_CALL = ('std::ops::Fn::call', 'std::ops::FnMut::call_mut', 'std::ops::FnOnce::call_once')
+
+
+# ---- decisions hidden in a joined boolean ----------------------------------------------------------------------------
+def guards_with_mapping(E, e):
+    """lib/effects.guards_of, each decision together with the parameter bindings of its chain level:
+    [(Cond, [(substituted value, outcome)..], substituted subject, mapping)]"""
+    from .lib.guards import conditions_ctx
+    out = []
+    for call, m in level_calls(e):
+        m = m or {}
+        for cd in conditions_ctx(E.prog, call.fn, call.bb, E.slicer):
+            views = [(E.subst(v, m), oc) for v, oc in cd.views()] if cd.kind == 'bool' else [(E.subst(cd.value, m), cd.outcome)]
+            subj = E.subst(cd.subject, m) if cd.subject is not None else None
+            out.append((cd, views, subj, m))
+    return out
+
+
+def _joined_local(f, op, refs=False):
+    """the local assigned on several paths that an operand is a copy (or negation; refs: or reborrow) of, else None"""
+    from .lib.mir import op_place
+    pl = op_place(op)
+    for _ in range(8):
+        if pl is not None and refs and len(pl) > 1 and all(x == '*' for x in pl[1:]):
+            pl = pl[:1]
+        if pl is None or len(pl) != 1:
+            return None
+        defs = f.whole_defs(pl[0])
+        if len(defs) >= 2:
+            return pl[0]
+        if len(defs) != 1 or defs[0][0] != 'stmt':
+            return None
+        rv = defs[0][3]
+        if rv['r'] == 'use' or (rv['r'] == 'un' and rv.get('op') == 'Not'):
+            pl = op_place(rv['o'])
+        elif refs and rv['r'] in ('ref', 'cfd', 'rawptr'):
+            pl = tuple(rv['p'])
+        else:
+            return None
+    return None
+
+
+def joined_alternatives(E, call, idx, mapping=None):
+    """`let target = if spec.launch { &mut env.layer_paths_launch } else { &mut env.layer_paths_build }; target.insert(..)`:
+    argument idx of the call is a local assigned on several paths; its value (a phi) does not show which decision picks
+    which alternative.  -> [(value, [pseudo-view..])] per assignment, in the entry function's terms: the value assigned and
+    the branch decisions that lead to that assignment (beyond those the call itself runs under), as (value, outcome) for
+    booleans and (subject, ('variant', outcome, enum)) for `match` decisions — evaluated on a row by alt_feasible.
+    None if the argument is not of that shape"""
+    from .lib.guards import conditions
+    sl = E.slicer
+    f = call.fn
+    if idx >= len(call.args):
+        return None
+    local = _joined_local(f, call.args[idx], refs=True)
+    if local is None:
+        return None
+    defs = f.whole_defs(local)
+    dblocks = {d[1] for d in defs}
+    starts = [0]
+    inner = sorted([lp for lp in E.loops(f) if call.bb in lp.body], key=lambda lp: len(lp.body))
+    if inner:
+        starts.append(inner[0].header)
+    elif f.in_loop(call.bb):
+        return None
+    for st in starts:
+        if st not in dblocks and _search(f, [st], dblocks, set(), lambda b: b == call.bb) is not None:
+            return None
+    ctx = {(c.sw_bb, c.target) for c in conditions(f, call.bb, sl)}
+    sub = (lambda v: E.subst(v, mapping)) if mapping else (lambda v: v)
+    out = []
+    for d in defs:
+        if d[0] != 'stmt':
+            return None
+        conds = []
+        for c2 in conditions(f, d[1], sl):
+            if (c2.sw_bb, c2.target) in ctx:
+                continue
+            if c2.kind == 'bool':
+                conds.append((sub(c2.value), c2.outcome))
+            elif c2.kind == 'variant' and c2.subject is not None and isinstance(c2.outcome, frozenset):
+                conds.append((sub(c2.subject), ('variant', c2.outcome, c2.enum)))
+            else:
+                return None
+        out.append((sub(sl._def_value(f, d, set(), 0)), conds))
+    return out
+
+
+def alt_feasible(prog, sl, conds):
+    """False when one of the decisions leading to an alternative is contradicted by the (row-substituted) value it tests"""
+    for v, oc in conds:
+        if isinstance(oc, bool):
+            s, want = strip(v), oc
+            while s[0] == 'un' and str(s[1]).lower() in ('not', '!'):
+                s, want = strip(s[2]), not want
+            if s[0] == 'const' and isinstance(s[1], bool) and s[1] != want:
+                return False
+        elif dead_row(prog, sl, [(v, oc)]):
+            return False
+    return True
+
+
+def joined_groups(E, cd, mapping=None):
+    """`let d = match fs::metadata(p) { Ok(m) => m.is_dir(), Err(_) => false }; if d {..}` / `let ok = a && b; if ok`:
+    the tested boolean is the join of several assignments, its value (a phi) does not show which branch decisions lead to
+    the one assignment that can yield the tested outcome.  -> the decisions the outcome depends on — the value assigned
+    on that path *and* the branch decisions that lead there (beyond those the test itself runs under) — as groups of
+    spellings [[(value, outcome)..]..] in the entry function's terms; None if the test is not of that shape.
+    A `match` on fs::metadata(p) on the way to `m.is_dir()` of its payload is part of the directory test of p."""
+    from .lib.guards import conditions
+    sl = E.slicer
+    f = cd.fn
+    if cd.kind != 'bool' or not _lossy(cd.value):
+        return None
+    t = f.blocks[cd.sw_bb]['t']
+    local = _joined_local(f, t.get('o'))
+    if local is None:
+        return None
+    want = cd.outcome       # (conditions() peeled the negations the copy chain applies from the value and the outcome alike)
+    defs = f.whole_defs(local)
+    dblocks = {d[1] for d in defs}
+    # the local is assigned anew on every path to the test (inside a loop: in this iteration)
+    starts = [0]
+    inner = sorted([lp for lp in E.loops(f) if cd.sw_bb in lp.body], key=lambda lp: len(lp.body))
+    if inner:
+        starts.append(inner[0].header)
+    elif f.in_loop(cd.sw_bb):
+        return None
+    for st in starts:
+        if st not in dblocks and _search(f, [st], dblocks, set(), lambda b: b == cd.sw_bb) is not None:
+            return None
+    ctx = {(c.sw_bb, c.target) for c in conditions(f, cd.sw_bb, sl)}
+    cands = []
+    for d in defs:
+        if d[0] not in ('stmt', 'call'):
+            return None
+        val = sl._def_value(f, d, set(), 0)
+        if strip(val) == ('const', not want):
+            continue
+        cands.append((d, val))
+    if len(cands) != 1:
+        return None
+    d, val = cands[0]
+    if _lossy(val):
+        return None
+    sub = (lambda v: E.subst(v, mapping)) if mapping else (lambda v: v)
+    views = []
+    if strip(val) != ('const', want):
+        views.extend(_pred_views(sl, sub(val), want))
+    extra = [c2 for c2 in conditions(f, d[1], sl) if (c2.sw_bb, c2.target) not in ctx]
+    for c2 in extra:
+        if c2.kind == 'bool':
+            if _lossy(c2.value):
+                return None
+            for x in _pred_views(sl, sub(c2.value), c2.outcome):
+                if x not in views:
+                    views.append(x)
+    tested = [p for p in (dir_test_of(sl, v) for v, oc in views if oc is True) if p is not None]
+    for c2 in extra:
+        if c2.kind == 'bool':
+            continue
+        if c2.kind == 'variant' and c2.subject is not None and isinstance(c2.outcome, frozenset) and c2.outcome <= {'Ok', 'Some', 'Continue'} \
+                and any(_same(_meta_src(sub(c2.subject)), p) for p in tested):
+            continue        # `Ok(m) = fs::metadata(p)` on the way to `m.is_dir()`: part of "p is a directory"
+        return None
+    return groups_of(views) if views else None
+
+
+# ---- which deltas does write_to_layer_dir persist ---------------------------------------------------------------------
+def self_fields_in(sl, f, v, self_idx=0):
+    """names of the fields of f's `self` that the value v is computed from, private helpers looked into
+    (`planned_env_files(&self.all)` — a plan computed from the delta before anything is written — depends on `all`)"""
+    from . import layer_env_common as L
+    out = []
+    for x in L.walk_deep(sl, v):
+        if x[0] == 'field' and isinstance(x[1], tuple) and x[1]:
+            b = strip(x[1])
+            if b[0] == 'param' and b[1] == f.path and b[2] == self_idx and x[2] not in out:
+                out.append(x[2])
+    return out
+
+
+def writer_scopes(prog, sl, f, table, rows, le):
+    """layer_env_common.writer_scope_table names the delta a file WRITE persists after the `.entries` it ranges over; a
+    writer that first turns the delta into a plan (a Vec of (file name, content) computed by a private helper) ranges
+    over the plan.  Here every WRITE is attributed to the fields of `self` its path and content are computed from:
+    -> ({scope: ..} with the scopes of such writes added, [writes that depend on no field of self])"""
+    kinds = {x['name']: x.get('head') for v in prog.adt(le)['variants'] for x in v['fields']}
+    table = dict(table)
+    loose = []
+    for e, scope, dirs, _, pv in rows:
+        deps = []
+        for a in ([pv] if pv is not None else []) + list(e.args or ()):
+            for n in self_fields_in(sl, f, a):
+                if n not in deps:
+                    deps.append(n)
+        labels = [n if kinds.get(n) == DELTA else n + '[*]' for n in deps]
+        if scope is None and not labels:
+            loose.append(e)
+        for lb in labels:
+            if lb != scope:
+                table.setdefault(lb, None)
+    return table, loose
